@@ -8,8 +8,9 @@
    removed once, by the listener close); before it the last clause of the property was false (F16a: findings/).
    What remains an assumption (modelled primitive, not proved): flock(LOCK_EX) is exclusive - `Lock` is enabled only while
    nobody holds the lock - and is released by closing the descriptor (`Unlock`, refusal, failure; process death is not
-   modelled); a DAG whose definition file cannot be opened is NOT locked by the code (lockSocket degrades to a no-op) -
-   every `start` / `retry` of the command line has loaded that file, the in-process drivers too.
+   modelled).  Since F16b the lock is on a dedicated file next to the socket address (created on demand, never removed; a
+   failure to open it is an error): saving the definition (label Save) does not touch it; assumption: nothing else
+   removes or replaces that file.
    Agent/Run.v is the single-agent skeleton.  Tie to the code: tools/props/C16.py (real `blackdagger` processes under
    strace with delay injection, and in-process agents, replayed against `run`). *)
 From Coq Require Import List Bool Arith.
@@ -102,3 +103,18 @@ Example C16_late_unlink_repaired :
   exists w, run (does 0 14 ++ does 1 11 ++ does 0 2 ++ does 2 4) (init Absent) = Some w /\
             outcomes 3 w = [(1, true, true); (0, true, true); (2, false, false)] /\ sock w = Bound 1 /\ answering w = true.
 Proof. exact late_unlink_repaired. Qed.
+
+(* F16b - a save of the DAG definition (temp file + rename: a new inode) between one start's lock and its bind.  With the
+   lock on the definition file (a924e5c) the second start got the lock at once and both executed; with the lock on a file
+   of its own the save is invisible to the protocol (label Save, quantified over in every theorem above). *)
+Example C16_save_race_refuted_before_F16b :
+  exists w, run_a924 (does 0 4 ++ [Save] ++ does 1 11 ++ does 0 7) (init Absent) = Some w /\
+            active (procs w 0) = true /\ active (procs w 1) = true /\ mem 0 (execd w) = true /\ mem 1 (execd w) = true /\
+            sock w = Bound 0 /\ listening w 1 = true.
+Proof. exact save_race_refuted_before_F16b. Qed.
+Example C16_save_race_not_executable : run (does 0 4 ++ [Save] ++ does 1 3) (init Absent) = None.
+Proof. exact save_race_not_executable. Qed.
+Example C16_save_race_repaired :
+  exists w, run (does 0 4 ++ [Save] ++ does 1 2 ++ does 0 7 ++ does 1 2 ++ does 0 5) (init Absent) = Some w /\
+            outcomes 2 w = [(1, true, true); (2, false, false)] /\ hist w = [0] /\ execd w = [0].
+Proof. exact save_race_repaired. Qed.
